@@ -69,13 +69,16 @@ where
   >,
 {
   fn next(&mut self, value: Item) {
+    // cancel the pending timer first: once `unsubscribe` has returned it has
+    // either delivered the previous item or will never run, so it cannot
+    // pick up the item stored below before that item's own window is over.
+    if let Some(handler) = self.task_handler.rc_deref_mut().take() {
+      handler.unsubscribe()
+    }
     *self.trailing_value.rc_deref_mut() = Some(value);
     let observer = self.observer.clone();
     let tail_value = self.trailing_value.clone();
     let task = OnceTask::new(debounce_task, (observer, tail_value));
-    if let Some(handler) = self.task_handler.rc_deref_mut().take() {
-      handler.unsubscribe()
-    }
     let handler = self.scheduler.schedule(task, Some(self.delay));
     *self.task_handler.rc_deref_mut() = Some(handler);
   }
